@@ -143,6 +143,9 @@ var textWordPool = []string{
 	"alpha", "beta", "gamma", "delta", "vector", "search", "index", "go", "a", "the", "Alpha", "BETA",
 	"café", "CAFÉ", "straße", "日本語", "日本", "🚀", "naïve", "ﬁne", "fine", "①", "1", "ｆｕｌｌ", "full",
 	"Å", "Å", "x-ray", "don't", "3.14", "hello,world", "...", "!?", "foo_bar", "ǅ",
+	// compatibility characters WITHOUT a lower-case mapping of their own whose NFKC form has upper-case letters
+	// (normalise first, lower-case second), next to their plain spellings
+	"™", "tm", "№", "no", "ℌ", "h", "ᴬ", "㎒", "mhz",
 }
 
 var textSeps = []string{" ", " ", " ", "  ", "\t", ", ", " - ", "\n", ""}
@@ -153,7 +156,7 @@ type textGen struct {
 }
 
 func newTextGen(rng *rand.Rand) *textGen {
-	n := 12 + rng.IntN(19)
+	n := 14 + rng.IntN(len(textWordPool)-13)
 	perm := rng.Perm(len(textWordPool))
 	g := &textGen{rng: rng}
 	for i := 0; i < n && i < len(perm); i++ {
